@@ -120,6 +120,22 @@ Fixpoint adom (a : astate) (ops : list top) : Prop :=
   | o :: r => aop_ok a o /\ adom (fst (astep a o)) r
   end.
 
+(** the same domain as a boolean (reflected by [adom_b_sound], Glue/TimersAbsProofs.v; used by the Examples) *)
+Definition aop_ok_b (a : astate) (o : top) : bool :=
+  match o with
+  | OAdd ns _ => (ns mod MS =? 0) && (ns <? a_now a + NEAR)
+  | OAfter dur _ => (dur mod MS =? 0) && (0 <=? dur) && (dur <? NEAR)
+  | ODel _ _ _ => true
+  | ORun ns => (ns mod MS =? 0) && (negb (a_now a <? ns) || forallb (fun x => negb (ai_exp x =? ns)) (a_pend a))
+  | ONow => true
+  | _ => false
+  end.
+Fixpoint adom_b (a : astate) (ops : list top) : bool :=
+  match ops with
+  | [] => true
+  | o :: r => aop_ok_b a o && adom_b (fst (astep a o)) r
+  end.
+
 (** the histories of the glue theorem: [good] is Layer T's class (fewer than 2^31 - 2 operations,
     instants below 2^61 ns, distinct callback ids, no verification-hook pokes, a key operation uses the
     key returned by the operation it names) *)
